@@ -89,7 +89,9 @@ func init() {
 		n := f.c.heapGet(st, "G!rpcFails", ArrSort(SInt, SInt))
 		cur := Select(n, IntLit(0))
 		f.c.heapSet(st, "G!rpcFails", Store(n, IntLit(0), Ite(Eq(rs[0], IfaceNil), cur, Add(cur, IntLit(1)))))
-		f.c.note("RPC delegate: arbitrary error result, no effect on local state (A-RPC)")
+		// the reply object (and, conservatively, the request) may be filled with anything
+		f.forgetPointees(st, e, args, sig)
+		f.c.note("RPC delegate: arbitrary error result and reply content, no other effect on local state (A-RPC)")
 		return rs
 	}
 	models["bytes.Equal"] = func(f *Frame, st *State, e *ast.CallExpr, recv *Term, args []*Term, sig *types.Signature) []*Term {
